@@ -39,6 +39,7 @@ Theorem subst_ext : forall d e m m', smap_eq m m' -> subst d m e = subst d m' e.
 Proof.
   intros d e. induction e using expr_ind'; intros m m' Hm; cbn [subst]; try reflexivity.
   - now rewrite Hm.
+  - now rewrite Hm.
   - f_equal. induction H as [|[a n t] l Hn Hl IH]; [reflexivity|]. cbn in Hn.
     rewrite (Hn m m' Hm). now rewrite IH.
   - f_equal. induction H as [|[a [k v] t] l Hn Hl IH]; [reflexivity|]. cbn in Hn.
